@@ -195,7 +195,7 @@ class C15(Prop):
   rule = ('leaf of every shipped class x n (1..8 quick plus 5 % from {12,16,24,25,31,48}; ..60 thorough; 25 % of prices, interior flows and cost parameters are non-dyadic decimals) x bounds with zero-width slots x scalar/vector parameters x '
           'in-bounds flow (interior / mixed / per-slot on a bound) AND the flows exactly on the lower and on the upper bounds x '
           'scalar/vector price; IDevice also with non-integer exponents (oracle only). non-trivial: n >= 2 and a non-zero curve parameter')
-  sizes = {'quick': 1000, 'thorough': 12000}
+  sizes = {'quick': 1000, 'thorough': 4000}   # exact rational arithmetic on nano-width slots, degree-5 curves and horizons up to 60 costs ~0.25 s per case in the Lean driver
   assumptions = ['the additive constant of the high/low quadratic cost is not documented; DK.C15.hlqCost_const states the code\'s choice, the oracle checks cost differences',
                  'state of charge / temperature recurrences are taken from the docstrings (their correctness is C09)',
                  'non-integer IDevice exponents: theorem (generic pow) + oracle, not T2 (the executable model has integer powers)']
